@@ -14,7 +14,7 @@ MANIFEST = dict(
               "and declarative `matches` oracle run against the real trigger"
               " + source-to-Gallina translation of internal/csm's node level proved equivalent to the model (SrcTie)",
     text="Machine-checked: for every well-formed parsed expression, every fixed offset within +-26h (and every zone table), "
-         "every prev in [0, MaxInt64], a value returned by the model of NextFireTime is a whole second strictly after prev whose "
+         "every prev in [MinInt64, MaxInt64] (instants before 1970 included), a value returned by the model of NextFireTime is a whole second strictly after prev whose "
          "civil reading in the location satisfies every field of the expression, including L, L-n, nW, LW, nL, n#k, and is a real "
          "calendar date (no rollover of impossible dates). The code-shaped model (node bounds regenerated from quartz/csm.go) is "
          "extracted to OCaml and compared with the real CronTrigger on grammar-generated expressions with prev placed at month "
